@@ -90,7 +90,7 @@ def buildCon : Con → Option Con
   | .bin l op r => do let l ← l.build; let r ← r.build; pure (.bin l op r)
   | .and a b => do let a ← buildCon a; let b ← buildCon b; pure (.and a b)
   | .or a b => do let a ← buildCon a; let b ← buildCon b; pure (.or a b)
-  | .not a => do let a ← buildCon a; pure (.not a)
+  | .not a => do let a ← buildCon a; pure (Con.mkNot a)
 
 def lwShowVar (i : Nat) : String := s!"VarId({i})"
 def showIntList (l : List Int) : String := "[" ++ ", ".intercalate (l.map toString) ++ "]"
